@@ -1,5 +1,6 @@
 import Qx.Driver.Proto
 import Qx.Crypto.Md5
+import Qx.Crypto.Base64
 import Qx.Model.C19Ibb
 open Qx.Driver Qx.C19
 
@@ -7,13 +8,15 @@ open Qx.Driver Qx.C19
 Line protocol of the C19 driver (words separated by single spaces).  The file hash parameter `H` of the model is
 instantiated with the executable MD5 of `Qx.Crypto.Md5` (cross-checked against hashlib by tools/crypto_selftest.py).
 
-  reset ibb <bsS> <bsR> <hash 0|1> <dev> <content>      → ok|R …|S …|P …
+  reset ibb <bsS> <bsR> <hash 0|1> <size 0|1> <dev> <content>      → ok|R …|S …|P …
+      (size = 0: the offer carries no size attribute, as for a sequential source of unknown length)
       bsS / bsR = `ibbBlockSize` of the sending / receiving manager; the offer announces size = |content| and, with
       hash = 1, MD5(content).   content := hex:<hex> | zero:<n> | ff:<n> | pat:<n>
       dev = the receiver's output device: buf (takes everything) | pw:<k> (≤ k bytes per write) |
             full:<m> (holds m bytes, then takes 0) | fail:<m> (a write beyond byte m fails with -1)
   deliver | drop | dup | swap | flip <bit> | eclose | wsid | wsender [<which other JID>]
-  inj <sender> <sid> (open <bs> | data <seq> <hex|-> | close)
+  inj <sender> <sid> (open <bs> | data <seq> <hex|-> | rawdata <seq> <hex of element text> | close)
+  lose | rinj <origin> <back> ok|<condition> | pclose
       → <replies>|R <state> <error> <len> <digest> d<job's byte counter> f<finished signals> e<error signals>
           (len / digest: what the DEVICE holds)
                  |S <state> <error> <bytes read> f<…> e<…>|P <pending request>
@@ -112,19 +115,33 @@ def parseKind : List String → Option Kind
     match seq.toNat?, hexOrDash hx with
     | some q, some pl => if q < 65536 then some (.data (UInt16.ofNat q) pl) else none
     | _, _ => none
+  -- `rawdata <seq> <hex of the text of the <data/> element>`: decoded as QByteArray::fromBase64 does (invalid
+  -- characters are skipped, no error)
+  | ["rawdata", seq, hx] =>
+    match seq.toNat?, hexOrDash hx with
+    | some q, some txt => if q < 65536 then some (.data (UInt16.ofNat q) (Qx.Crypto.Base64.decodeLenient txt)) else none
+    | _, _ => none
   | ["close"] => some .close
+  | _ => none
+
+def parseCond : String → Option (Option Cond)
+  | "ok" => some none
+  | "item-not-found" => some (some .itemNotFound)
+  | "unexpected-request" => some (some .unexpectedRequest)
+  | "resource-constraint" => some (some .resourceConstraint)
   | _ => none
 
 def flag (s : String) : Option Bool := if s = "1" then some true else if s = "0" then some false else none
 
 def stepLine (d : D) (line : String) : D × String :=
   match words line with
-  | ["reset", "ibb", bsS, bsR, h, dev, content] =>
-    match bsS.toNat?, bsR.toNat?, flag h, parseDev dev, parseContent content with
-    | some bS, some bR, some h, some dev, some data =>
-      let d' : D := { d with st := initDev dev bS bR data.length (if h then some (H data) else none) data, total := data.length }
+  | ["reset", "ibb", bsS, bsR, h, sz, dev, content] =>
+    match bsS.toNat?, bsR.toNat?, flag h, flag sz, parseDev dev, parseContent content with
+    | some bS, some bR, some h, some sz, some dev, some data =>
+      let d' : D := { d with st := initDev dev bS bR (if sz then data.length else 0) (if h then some (H data) else none) data,
+                             total := data.length }
       (d', "ok" ++ showTail d')
-    | _, _, _, _, _ => (d, "bad-op")
+    | _, _, _, _, _, _ => (d, "bad-op")
   | ["reset", "socks", h, sz, dev, content] =>
     match flag h, flag sz, parseDev dev, parseContent content with
     | some h, some sz, some dev, some data =>
@@ -137,6 +154,8 @@ def stepLine (d : D) (line : String) : D × String :=
     | none => (d, "bad-op")
   | ["disc"] => let r := sstep H d.socks .disconnect; ({ d with socks := r }, showSocks r)
   | ["deliver"] => apply d .deliver
+  -- the same delivery with the base64 text of the element broken up by white space: the code's decoder skips it
+  | ["deliverws"] => apply d .deliver
   | ["drop"] => apply d .drop
   | ["dup"] => apply d .dup
   | ["swap"] => apply d .swap
@@ -151,6 +170,16 @@ def stepLine (d : D) (line : String) : D × String :=
     match snd.toNat?, sid.toNat?, parseKind k with
     | some a, some b, some k => apply d (.inject a b k)
     | _, _, _ => (d, "bad-op")
+  | ["lose"] => apply d .lose
+  -- a response IQ reaches the sending client: rinj <origin: 0 = the peer> <back: 0 = id of its last request> ok|<condition>
+  | ["rinj", o, b, c] =>
+    match o.toNat?, b.toNat?, parseCond c with
+    | some o, some b, some c => apply d (.injectReply o b c)
+    | _, _, _ => (d, "bad-op")
+  | ["pclose"] =>
+    let x := step H d.st .peerClose
+    let d' := { d with st := x.1 }
+    (d', "s:" ++ ",".intercalate (x.2.map fun r => match r.err with | none => "ok" | some c => "e:" ++ showCond c) ++ showTail d')
   | ["run", n] =>
     match n.toNat? with
     | some n =>
